@@ -98,7 +98,9 @@ PROPS["C19"] = dict(level="exploration",
     units=[Unit("c19_cancel", "harness/c19_cancel.cpp", cfg="d17", max_size=120, pin=True, shards=8,
                 quick=(30, 400000), thorough=(480, 20000000)),
            Unit("c19_canary", "harness/c19_canary.cpp", cfg="d17", max_size=100, pin=True, shards=8,
-                quick=(12, 400000), thorough=(200, 20000000))],
+                quick=(12, 400000), thorough=(200, 20000000)),
+           Unit("c19_create", "harness/c19_create.cpp", cfg="d20", max_size=100, pin=True, shards=8,
+                quick=(15, 400000), thorough=(240, 20000000))],
     assumptions=_DS_ASSUME)
 
 _C08U = Unit("c08_scope", "harness/c08_scope.cpp", cfg="d17", max_size=140, pin=True, shards=8,
